@@ -985,6 +985,21 @@ def run_z_methods(ctx, n, impl):
         outs = [[("method", "html")]] if mode == "explicit" else []
         if mode != "explicit":
             evs[0] = ("S", evs[0][1], [])
+        # presentational attributes next to (or instead of) the method: they must not change what HTML parsing reads
+        # back - in particular cdata-section-elements has no meaning for html, also when html is chosen by the
+        # root-element rule AFTER the formatter was set up for xml (XSLTEngineImpl::flushPending; seed C08_c)
+        if r.random() < 0.6:
+            names = sorted({s_of(e[1]) for e in evs if e[0] == "S"})
+            extra = [("cdata-section-elements", " ".join(r.sample(names, min(len(names), r.choice([1, 2, len(names)])))))]
+            if r.random() < 0.3:
+                extra.append(("indent", r.choice(["yes", "no"])))
+            if r.random() < 0.3:
+                extra.append(("omit-xml-declaration", r.choice(["yes", "no"])))
+            if outs:
+                outs = [outs[0] + extra]
+            else:
+                outs = [extra]
+            mode = mode + "+cdata"
         cid = "zh%d" % i
         lines.append(z_line(cid, sheet_of(outs, body_of(evs), exclude="xalan p"), api))
         meta[cid] = ("html", evs, api, lines[-1], mode)
@@ -1017,21 +1032,21 @@ def run_z_methods(ctx, n, impl):
             p = HCollect()
             p.feed(txt)
             p.close()
-            esc_off = mode == "explicit" and api[3] == "0"
+            esc_off = mode.startswith("explicit") and api[3] == "0"
             what = html_compare(html_expected(evs), p.out, True, escape_urls=not esc_off)
             if what and esc_off and html_compare(html_expected(evs), p.out, True, True) is None:
                 what = "URI attribute escaped although setEscapeURLs(no): " + what
             has_head = any(e[0] == "S" and s_of(e[1]).lower() == "head" for e in evs)
             meta_there = "<META http-equiv=\"Content-Type\"" in txt
-            ignored_escape = mode != "explicit" and api[3] == "0" and html_compare(html_expected(evs), p.out, True, False) is not None
+            ignored_escape = not mode.startswith("explicit") and api[3] == "0" and html_compare(html_expected(evs), p.out, True, False) is not None
             if what is None and txt.startswith("<?xml"):
                 what = "html output method (explicit or by the html root rule) but an XML declaration was written"
             # when HTML is chosen by the root-element rule, XSLTEngineImpl::flushPending builds the FormatterToHTML with
             # the default escapeURLs/omitMETATag: the API overrides are not consulted (noted, not a C08 failure:
             # the content is the same either way)
-            if mode != "explicit" and ((has_head and api[2] == "1" and meta_there) or ignored_escape):
+            if not mode.startswith("explicit") and ((has_head and api[2] == "1" and meta_there) or ignored_escape):
                 ctx.notes["html_root_rule_ignores_setOmitMETATag_setEscapeURLs"] = ctx.notes.get("html_root_rule_ignores_setOmitMETATag_setEscapeURLs", 0) + 1
-            if what is None and mode == "explicit" and has_head and api[2] == "1" and meta_there:
+            if what is None and mode.startswith("explicit") and has_head and api[2] == "1" and meta_there:
                 what = "META tag written although setOmitMETATag(yes)"
             if what is None and has_head and api[2] in ("-", "0") and not meta_there:
                 what = "no META tag in HEAD"
